@@ -11,8 +11,11 @@ pub mod c11;
 pub mod c12;
 pub mod c13;
 pub mod c14;
+pub mod c16;
 pub mod c17;
 pub mod c18;
+pub mod c19;
+pub mod c20;
 
 pub fn all() -> Vec<Arc<dyn Prop>> {
     vec![
@@ -26,7 +29,10 @@ pub fn all() -> Vec<Arc<dyn Prop>> {
         Arc::new(c12::C12),
         Arc::new(c13::C13),
         Arc::new(c14::C14),
+        Arc::new(c16::C16),
         Arc::new(c17::C17),
         Arc::new(c18::C18),
+        Arc::new(c19::C19),
+        Arc::new(c20::C20),
     ]
 }
